@@ -295,6 +295,67 @@ fn check_entry(entry: usize, data: &[u8], class: &str, rep: &mut Report) {
     }
 }
 
+fn hostile_variants() -> Vec<(String, Profile)> {
+    let vals: [u32; 14] = [0, 1, 2, 0x7f, 0x80, 0xff, 0x100, 0x7fff, 0xffff, 0x10000, 0xffffff, 0x1000000, 0x7fffffff, 0xffffffff];
+    let mut variants: Vec<(String, Profile)> = Vec::new();
+    for i in 0..8 {
+        for v in vals.iter() {
+            let mut p = Profile::default();
+            p.domain_params[i] = *v;
+            variants.push((format!("domainParameters[{}]={:#x}", i, v), p));
+        }
+    }
+    for v in vals.iter() {
+        let mut p = Profile::default();
+        p.connect_id = *v;
+        variants.push((format!("calledConnectId={:#x}", v), p));
+        let mut p = Profile::default();
+        p.gcc_tag = *v;
+        variants.push((format!("gccTag={:#x}", v), p));
+        let mut p = Profile::default();
+        p.version = *v;
+        variants.push((format!("rdpVersion={:#x}", v), p));
+        let mut p = Profile::default();
+        p.early_caps = *v;
+        variants.push((format!("earlyCapabilityFlags={:#x}", v), p));
+        let mut p = Profile::default();
+        p.share_id = *v;
+        variants.push((format!("shareId={:#x}", v), p));
+    }
+    for u in [1001u16, 1002, 1003, 1004, 0x7fff, 0x8000, 0xffff, 2000].iter() {
+        let mut p = Profile::default();
+        p.user_id = *u;
+        variants.push((format!("userId={}", u), p.clone()));
+        p.io_channel = *u;
+        variants.push((format!("userId=ioChannel={}", u), p));
+        let mut p = Profile::default();
+        p.node_id = *u;
+        variants.push((format!("nodeId={}", u), p));
+    }
+    for n in [1usize, 2, 3, 7, 8, 31, 32, 255, 1000, 8000].iter() {
+        let mut p = Profile::default();
+        p.net_channels = (0..*n).map(|i| 1004 + (i % 60000) as u16).collect();
+        variants.push((format!("channelCount={}", n), p));
+    }
+    for n in [0usize, 1, 50, 200].iter() {
+        let mut p = Profile::default();
+        let one = p.caps[1].clone();
+        p.caps = (0..*n).map(|_| one.clone()).collect();
+        variants.push((format!("capabilitySets={}", n), p));
+    }
+    variants
+}
+
+fn run_variant(variants: &[(String, Profile)], idx: u64, rep: &mut Report) {
+    let (name, prof) = &variants[(idx / 2) as usize];
+    let tls = idx % 2 == 1;
+    let plan = Plan { profile: 0, tls, kind: "none".into(), occ: 0, layer: "inner", mutant: Mutant { class: format!("value:{}", name), bytes: vec![], at: 0 } };
+    let o = run_plan(&plan, std::slice::from_ref(prof));
+    rep.nontrivial(fnv(name.as_bytes()) ^ idx);
+    rep.set("hostile_values", name.split('=').next().unwrap_or("").to_string());
+    judge("C05", &format!("value:{}", name.split('=').next().unwrap_or("")), &plan.mutant.class, &o, json!({"value_variant": name, "tls": tls}), rep);
+}
+
 pub fn run(cfg: &Cfg) -> Report {
     let seed = cfg.seed;
     let profs = profiles();
@@ -364,63 +425,11 @@ pub fn run(cfg: &Cfg) -> Report {
     // class 4: well-encoded but hostile *values*: every numeric parameter of the server's messages at boundary values,
     // re-encoded consistently (DER integers grow, lengths follow) - what blind pokes cannot produce
     if cfg.wants(4) {
-        let vals: [u32; 14] = [0, 1, 2, 0x7f, 0x80, 0xff, 0x100, 0x7fff, 0xffff, 0x10000, 0xffffff, 0x1000000, 0x7fffffff, 0xffffffff];
-        let mut variants: Vec<(String, Profile)> = Vec::new();
-        for i in 0..8 {
-            for v in vals.iter() {
-                let mut p = Profile::default();
-                p.domain_params[i] = *v;
-                variants.push((format!("domainParameters[{}]={:#x}", i, v), p));
-            }
-        }
-        for v in vals.iter() {
-            let mut p = Profile::default();
-            p.connect_id = *v;
-            variants.push((format!("calledConnectId={:#x}", v), p));
-            let mut p = Profile::default();
-            p.gcc_tag = *v;
-            variants.push((format!("gccTag={:#x}", v), p));
-            let mut p = Profile::default();
-            p.version = *v;
-            variants.push((format!("rdpVersion={:#x}", v), p));
-            let mut p = Profile::default();
-            p.early_caps = *v;
-            variants.push((format!("earlyCapabilityFlags={:#x}", v), p));
-            let mut p = Profile::default();
-            p.share_id = *v;
-            variants.push((format!("shareId={:#x}", v), p));
-        }
-        for u in [1001u16, 1002, 1003, 1004, 0x7fff, 0x8000, 0xffff, 2000].iter() {
-            let mut p = Profile::default();
-            p.user_id = *u;
-            variants.push((format!("userId={}", u), p.clone()));
-            p.io_channel = *u;
-            variants.push((format!("userId=ioChannel={}", u), p));
-            let mut p = Profile::default();
-            p.node_id = *u;
-            variants.push((format!("nodeId={}", u), p));
-        }
-        for n in [1usize, 2, 3, 7, 8, 31, 32, 255, 1000, 8000].iter() {
-            let mut p = Profile::default();
-            p.net_channels = (0..*n).map(|i| 1004 + (i % 60000) as u16).collect();
-            variants.push((format!("channelCount={}", n), p));
-        }
-        for n in [0usize, 1, 50, 200].iter() {
-            let mut p = Profile::default();
-            let one = p.caps[1].clone();
-            p.caps = (0..*n).map(|_| one.clone()).collect();
-            variants.push((format!("capabilitySets={}", n), p));
-        }
+        let variants = hostile_variants();
         let n = variants.len() as u64 * 2;
         let rep = par_run(cfg, n, 4, |idx, rep| {
             mon::begin_case(5, 4, idx, seed);
-            let (name, prof) = &variants[(idx / 2) as usize];
-            let tls = idx % 2 == 1;
-            let plan = Plan { profile: 0, tls, kind: "none".into(), occ: 0, layer: "inner", mutant: Mutant { class: format!("value:{}", name), bytes: vec![], at: 0 } };
-            let o = run_plan(&plan, std::slice::from_ref(prof));
-            rep.nontrivial(fnv(name.as_bytes()) ^ idx);
-            rep.set("hostile_values", name.split('=').next().unwrap_or("").to_string());
-            judge("C05", &format!("value:{}", name.split('=').next().unwrap_or("")), &plan.mutant.class, &o, json!({"value_variant": name, "tls": tls}), rep);
+            run_variant(&variants, idx, rep);
         });
         total.count("hostile_value_variants", n);
         total.merge(rep);
@@ -491,11 +500,22 @@ pub fn replay(cfg: &Cfg, v: &Value) -> Report {
                 let o = run_plan(plan, &profs);
                 judge("C05", &plan.kind, &plan.mutant.class, &o, plan.to_json(), &mut rep);
             }
+            4 => run_variant(&hostile_variants(), idx, &mut rep),
             c if c >= 10 && c < 30 => check_entry((c - 10) as usize, &fault::short_string(idx), "short-string", &mut rep),
             _ => {
                 rep.eval();
                 rep.inconclusive("death case of a class that cannot be regenerated individually");
             }
+        }
+        return rep;
+    }
+    if let Some(name) = v.get("value_variant").and_then(|x| x.as_str()) {
+        let vs = hostile_variants();
+        if let Some(i) = vs.iter().position(|(n, _)| n == name) {
+            run_variant(&vs, i as u64 * 2 + v["tls"].as_bool().unwrap_or(false) as u64, &mut rep);
+        } else {
+            rep.eval();
+            rep.inconclusive("unknown value variant in replay file");
         }
         return rep;
     }
